@@ -27,7 +27,7 @@ func genC03(t *rapid.T) caseProg {
 	cfg.Names = []string{"a", "b", "c", "d", "TYPE", "NAME"}
 	cfg.Types = []string{"s", "t", "a", "b"}
 	cfg.WVar, cfg.WAsg, cfg.WPrint, cfg.WDef = 12, 35, 8, 45
-	cfg.BNames = []string{"", "", `"a"`, `"b"`, `"a b"`, `"\x41"`, `"q\"r"`, `"é"`, `"x.y"`, `""`, `"é"`, `"t\tb"`, `"a."`, `"."`, `"x.y."`, `"b.."`}
+	cfg.BNames = []string{"", "", `"a"`, `"b"`, `"a b"`, `"\x41"`, `"q\"r"`, `"é"`, `"x.y"`, `""`, `"é"`, `"t\tb"`, `"a."`, `"."`, `"x.y."`, `"b.."`, `" "`, `"\t"`, `"\u00a0"`, `"  "`, `"NAME"`, `"TYPE"`}
 	cfg.Binds = gen.Chance(t, 30, "withbinds")
 	return genCaseProg(t, cfg, gen.LayoutOpts{Plain: 95})
 }
